@@ -322,6 +322,7 @@ pub fn run(sc: &Scenario) -> String {
     let mut seed = 12345u64;
     let mut sys: Option<System> = None;
     let mut nlog = 0usize;
+    let mut evseen: std::collections::HashMap<String, usize> = std::collections::HashMap::new();
     for (idx, line) in sc.lines.iter().enumerate() {
         let mut t = Toks::new(line);
         let kw = t.tok();
@@ -348,6 +349,27 @@ pub fn run(sc: &Scenario) -> String {
                     }
                     Ok(ret) => {
                         writeln!(out, "{}", ret).unwrap();
+                        // new entries of the per-process event logs (X lines: implementation only, for the C17 monitor)
+                        {
+                            let mut nodes = s.nodes();
+                            nodes.sort();
+                            for n in &nodes {
+                                let node = s.get_node(n).unwrap();
+                                let mut procs = node.process_names();
+                                procs.sort();
+                                for p in &procs {
+                                    let log = node.event_log(p);
+                                    let seen = evseen.entry(p.clone()).or_insert(0usize);
+                                    if log.len() < *seen {
+                                        *seen = 0;
+                                    }
+                                    for e in log.iter().skip(*seen) {
+                                        writeln!(out, "XEV {} {} {}", crate::common::num(p), e.time.to_bits(), crate::canon::c_pevent(&e.event)).unwrap();
+                                    }
+                                    *seen = log.len();
+                                }
+                            }
+                        }
                         // API calls issued by the handlers during this call (not compared with the model: X lines)
                         crate::script_proc::CALLS.with(|c| {
                             for l in c.borrow_mut().drain(..) {
